@@ -219,8 +219,23 @@ class Engine:
         return out
 
     # ------------------------------------------------------------------ heap field access
+    def field_key(self, st, ref, field):
+        """Fields are identified by name; a schema entry 'Class.field' overrides the kind for that class."""
+        keys = set()
+        for c in self.classes_of(st, ref):
+            k = field
+            for b in c.__mro__:
+                if f"{b.__name__}.{field}" in st.heap.schema:
+                    k = f"{b.__name__}.{field}"
+                    break
+            keys.add(k)
+        if len(keys) > 1:
+            raise Unsupported(f"field {field} has different kinds across {self.classes_of(st, ref)}")
+        return keys.pop() if keys else field
+
     def read_field(self, st, ref, field):
         """Plain instance-field read. -> list of (state, value)"""
+        field = self.field_key(st, ref, field)
         kind = st.heap.schema.get(field)
         if kind is None:
             return [(st, Opaque(f"field {field}"))]
@@ -263,6 +278,7 @@ class Engine:
         return self.field_classes.get(field, ()) if hasattr(self, "field_classes") else ()
 
     def write_field(self, st, ref, field, val):
+        field = self.field_key(st, ref, field)
         kind = st.heap.schema.get(field)
         if kind is None:
             st.ghost.setdefault("dropped_writes", set())
@@ -430,7 +446,12 @@ class Engine:
         if isinstance(node.value, ast.Constant):   # docstring
             return [("ok", st, None)]
         out = []
-        for s2, v in self.ev(node.value, st):
+        self._discard = node.value
+        try:
+            rs = self.ev(node.value, st)
+        finally:
+            self._discard = None
+        for s2, v in rs:
             out.append(("exc", s2, v) if isinstance(v, Exc) else ("ok", s2, None))
         return out
 
